@@ -22,6 +22,8 @@ structure OSock where
   closedRd : Bool := false
   /-- index (arrival order) of the last datagram this socket returned -/
   lastIdx : Nat := 0
+  /-- receive buffer limit (the smallest one ever set: conservative) -/
+  rcvMax : Nat := 32768
 deriving Inhabited
 
 structure ODgram where
@@ -32,6 +34,9 @@ structure ODgram where
   /-- socket expected to receive it by the most-specific-match rule (none: nobody) -/
   expect : Option Nat
   consumed : Bool := false
+  /-- the expected socket's receive buffer had room when it arrived, whatever happened to earlier arrivals: it
+  cannot have been dropped for lack of buffer space -/
+  must : Bool := false
 deriving Inhabited
 
 structure OSt where
@@ -260,6 +265,12 @@ def oracleStep (st : St) (toks : List String) (res : String) : St × String :=
                                   netProto := np, dual := false }) "ok"
       | none => ret o "ok"
     | _, _, _ => (st, "bad-op")
+  | ["udp.rcvbuf", i, n] =>
+    match i.toNat?, n.toNat? with
+    | some i, some n =>
+      let s := o.socks.getD i {}
+      ret (setSock o i { s with rcvMax := min s.rcvMax n }) "ok"
+    | _, _ => (st, "bad-op")
   | ["udp.shutdown", i, how] =>
     match i.toNat? with
     | some i =>
@@ -281,11 +292,22 @@ def oracleStep (st : St) (toks : List String) (res : String) : St × String :=
       let exp := match exp with
         | some i => if (o.socks.getD i {}).closedRd then none else some i
         | none => none
-      ret { o with n := o.n + 1, dgrams := o.dgrams ++ [⟨o.n + 1, pl, src, sp, exp, false⟩] } "ok"
+      -- upper bound of what may sit in the expected socket's receive queue (default limit 32 KiB; a datagram is
+      -- accepted whenever the queue is below the limit)
+      let hi := match exp with
+        | some i => ((o.dgrams.filter fun g => g.expect == some i && !g.consumed).map (·.payload.length)).foldl (· + ·) 0
+        | none => 0
+      let lim := match exp with | some i => (o.socks.getD i {}).rcvMax | none => 0
+      ret { o with n := o.n + 1, dgrams := o.dgrams ++ [⟨o.n + 1, pl, src, sp, exp, false, exp.isSome && hi < lim⟩] } "ok"
     | _, _, _, _, _, _, _ => (st, "bad-op")
   | ["udp.read", i] =>
     match i.toNat? with
     | some i =>
+      if res.startsWith "operation-would-block" then
+        -- the queue is empty: every datagram that had to be accepted for this socket must have been returned
+        (st, if o.dgrams.any (fun g => g.expect == some i && !g.consumed && g.must) then
+               "bad c09.datagram-for-registered-socket-not-delivered" else "ok")
+      else
       if !res.startsWith "data=" then (st, "ok") else
       match res.splitOn " " with
       | [d, f, _] =>
